@@ -67,6 +67,7 @@ def C01(F, rep, tier, cx):
     RD.D123(F, rep)
     RF.C1(F, rep, cx.FL)
     RF.S2S3(F, rep, cx.FL, {'S3'})
+    RF.F3p(F, rep, cx.FL)   # container payload is what its method field says (compress <-> uncompress agree)
 
 
 def C02(F, rep, tier, cx):
@@ -128,6 +129,7 @@ def C04(F, rep, tier, cx):
     format_table(F, rep, LR, FILESTAT, FORMAT_FILESTATISTICS, 'F2', total=144)
     stat_size(F, rep)
     RF.F3F4(F, rep, cx.FL)
+    RF.F3p(F, rep, cx.FL)
     RF.F5F6(F, rep, cx.R)
     RF.E2B3(F, rep, cx.FL, {'E2'})
 
@@ -170,6 +172,7 @@ def C06(F, rep, tier, cx):
     rep.counts.pop('K1', None)
     ws = RP.K2(F, rep, cx.R)
     cx._ws = ws
+    RP.K2s(F, rep, cx.R, ws)
     RP.K3(F, rep, cx.R, cx.FL, ws)
     RP.K4(F, rep, cx.R, cx.FL)
     RP.K5(F, rep, cx.R, cx.FL, ('BLF',), 'valid-session')
@@ -234,11 +237,13 @@ def C12(F, rep, tier, cx):
 
 
 def C13(F, rep, tier, cx):
-    """O2 every owned pointer transferred/deleted/returned exactly once on every path; O3 thread start/join pairing, open/close guards,
-    ~File -> close; O4 ~ObjectQueue drains"""
-    RF.O1O2(F, rep, cx.FL, [RF.U2Q, RF.Q2U, FILE + '::read', FILE + '::write'], rules=('O2',))
+    """O2 every owned pointer transferred/deleted/returned exactly once on every path (incl. the queue's own write); O3 thread
+    start/join pairing, open/close guards, ~File -> close; O4 ~ObjectQueue drains; K6 every joined worker's waits are released"""
+    qwrite = cx.R.stages['m_readWriteQueue'] + '::write'
+    RF.O1O2(F, rep, cx.FL, [RF.U2Q, RF.Q2U, FILE + '::read', FILE + '::write', qwrite], rules=('O2',))
     RF.O3(F, rep, cx.R, cx.FL)
     RF.O4(F, rep, cx.R, cx.FL)
+    RP.K6(F, rep, cx.R, cx.FL, cx.ws())   # "sessions shut down cleanly": close() must be able to return (shared with C06)
 
 
 def C14(F, rep, tier, cx):
